@@ -15,7 +15,7 @@ P = {
          "Every single and double fault placement within the property's hypothesis over the exchange of small files is executed against the real daemons; the oracle demands receiver success, sender success, byte-identical destination and termination of both tasks within the bound. Exhaustive for the enumerated layers; larger files and triples are sampled; an adaptive random dropper that keeps every retransmission counter below its limit adds long recoveries with many losses and progress in between.",
          "Hypothesis region is strictly inside the property's (F < limit, delays < min timer/2, Ti >= Ta+Tn). Trusts the simulator's link and virtual clock.", "DESIGN.md §5 C02"),
  "C03": ("fault_enumeration", "sim", "runtime monitor: task-lifetime guard (hook H3) + virtual clock; blackout at every emission index, termination bound checked per transaction",
-         "For every cut point of the exchange (blackout of either/both directions at every emission index) x mode x closure x NAK procedure, every transaction task must end within the bound B after the last PDU delivered to it, no loop may spin at one virtual instant, and the daemons must afterwards serve a fresh transfer and a Report. Enumerated cut points are complete for the reference exchanges; configurations are a grid; user cancels, heavy random loss and Prompt requests at random points (including while the receiver waits for the ACK of Finished) are sampled.",
+         "For every cut point of the exchange (blackout of either/both directions at every emission index) x mode x closure x NAK procedure, every transaction task must end within the bound B after the last PDU delivered to it, no loop may spin at one virtual instant, and the daemons must afterwards serve a fresh transfer and a Report. Enumerated cut points are complete for the reference exchanges; configurations are a grid; user cancels, heavy random loss, Prompt requests at random points (including while the receiver waits for the ACK of Finished) and sequences of 1-4 user primitives (Cancel/Suspend/Resume/Prompt/Report) at either entity from every point of the exchange are sampled; a transaction is exempt from the bound only while the user holds it suspended.",
          "Timeouts >= 1 s (zero-second timers are not a meaningful configuration). The bound B is generous by design; a hang never ends and is caught by the 3*B observation window.", "DESIGN.md §5 C03"),
  "C04": ("fault_enumeration", "sim", "runtime monitor over enumerated re-deliveries of every previously sent PDU (singles and pairs) into the window between the receiver's success indication and its end",
          "After the receiver's first success indication, each previously emitted PDU (and each pair) is delivered again while ACK(Finished) is withheld; the oracle checks the destination bytes, a non-idempotent append marker (requests executed exactly once), absence of integrity faults, and that sender success implies an earlier receiver success. Exhaustive for files of <= 3 segments, in acknowledged mode and in unacknowledged mode with closure.",
@@ -30,7 +30,7 @@ P = {
          "Every PDU a real sending daemon hands to the link is checked against the source file on disk (bytes at offset, length caps, in-order first-pass tiling, retransmissions only for requested bytes and every requested in-file byte answered, true metadata/EOF, header identifiers and length). NAK shapes (overlapping, unsorted, empty, beyond EOF, long) are injected before/during/after the first pass by a scripted receiver.",
          "NAK ranges beyond EOF are bounded to a few segments past the end. Trusts the simulator.", "DESIGN.md §5 C07"),
  "C08": ("exploration", "sim", "runtime monitor at the receiver's transport boundary with a scripted sender: every NAK compared with the harness's exact knowledge of delivered bytes; all loss subsets enumerated for small files",
-         "The harness plays the sender and knows exactly what it delivered; every NAK PDU emitted by the real receiver is checked for well-formedness, scope, size limit, and (after EOF) exact coverage of the missing bytes per round; deferred/immediate timing rules are checked on virtual timestamps. All subsets of lost segments/metadata for files of up to 6 segments are enumerated.",
+         "The harness plays the sender and knows exactly what it delivered; every NAK PDU emitted by the real receiver is checked for well-formedness, scope, size limit, and (after EOF) exact coverage of the missing bytes per round; deferred/immediate timing rules are checked on virtual timestamps. All subsets of lost segments/metadata for files of up to 6 segments are enumerated; late duplicates after the end re-create the receive transaction, which is judged for the deferred-procedure rule under a default configuration that differs from the peer's.",
          "Rounds are delimited by the harness's own deliveries; arrival orders are sampled beyond the enumerated core.", "DESIGN.md §5 C08"),
  "C09": ("exploration", "pure", "reference-model monitor: the real segment list against a bitset/interval-set model after every operation; bounded-exhaustive sequences + long random walks",
          "All sequences of up to 4 segments over 12 positions and up to 3 over 16 are enumerated; after every merge the returned count, the running total, is_complete for every n and gaps for every window are compared with the set-union model; random walks cover offsets up to 2^64-1.",
@@ -39,7 +39,7 @@ P = {
          "Cancel at sender or receiver at every index of the reference exchanges x modes x closure x single handshake losses x blackout; the oracle checks termination of the cancelling entity within its limits, termination and cancel condition at a reachable peer, that the destination name never exposes partial content, and that nothing is delivered after the receiver has reported the transaction cancelled (one recorded finding: the daemon re-creates a cancelled transaction from late PDUs).",
          "A cancel may legitimately lose the race against completion; the cancel-condition rule applies only to runs where the receiver never reported success.", "DESIGN.md §5 C10"),
  "C11": ("exploration", "sim", "runtime monitor over multi-daemon executions with many overlapping transactions, stray/replayed/hostile PDUs: per-transaction outcome, tagged content, id distinctness, daemon liveness probe",
-         "2-3 real daemons with up to tens of overlapping transfers in both directions and mixed modes under random loss, with injected stray PDUs and raw bytes (virtual-time simulator), plus a real-time lane on a multi-thread runtime with a slow receiving filestore (back-pressure under real parallelism); each transaction must deliver its own tagged content and report its own outcome, Put ids must be distinct, and every daemon must still serve a fresh Put and Report at the end.",
+         "2-3 real daemons with up to tens of overlapping transfers in both directions and mixed modes under random loss, with injected stray PDUs and raw bytes, sequence numbers starting just below the wrap of their width, and a default configuration that differs from the per-entity one (a receive transaction started by a stray must show its source entity's timing) (virtual-time simulator), plus a real-time lane on a multi-thread runtime with a slow receiving filestore (back-pressure under real parallelism); each transaction must deliver its own tagged content and report its own outcome, Put ids must be distinct, and every daemon must still serve a fresh Put and Report at the end.",
          "Schedules are sampled by seed, latency pattern and burst/paced mode.", "DESIGN.md §5 C11"),
  "C12": ("exploration", "fs", "runtime monitor in a chroot jail: native-path containment + full tree snapshot of the sentinel parent before/after every operation, names enumerated over the hostile alphabet",
          "Every name of up to 5 components over {a, ., .., empty, leading /, the root path, a sibling extending the root's name} is fed to every filestore operation; the computed native path must stay inside the root and the sentinel tree outside the root must be unchanged (escaping reads are caught by unique sentinel contents).",
@@ -57,7 +57,7 @@ P = {
          "Every truncation length of every corpus PDU following every longer corpus PDU, CRC on/off, lock-step over 127.0.0.1; the transport's result must equal PDU::decode of exactly the datagram's bytes.",
          "Needs loopback UDP; a receive that does not return in 5 s is inconclusive.", "DESIGN.md §5 C16"),
  "C17": ("exploration", "pure+sim", "reference-model monitor of Counter/Timer under the paused clock, and timestamp monitor of retransmissions, limit faults and handler actions in simulated blackouts over a (T, L) grid",
-         "(a) random operation sequences on the real Counter/Timer compared with a reference counter after every step; (b) for a peer silent from every point of the exchange: exact number and spacing of EOF/Finished/NAK retransmissions, fault no earlier than L*T, reset on progress, the configured handler action (ignore/suspend/abandon/cancel) observed on the link and at the user, also with a different handler per condition, and a reached inactivity limit must be declared under its own condition.",
+         "(a) random operation sequences on the real Counter/Timer compared with a reference counter after every step; (b) for a peer silent from every point of the exchange: exact number and spacing of EOF/Finished/NAK retransmissions, fault no earlier than L*T, reset on progress, the configured handler action (ignore/suspend/abandon/cancel) observed on the link and at the user, also with a different handler per condition and with timer configurations in which the inactivity limit precedes the ACK limit (two conditions compete at the sender), and a reached inactivity limit must be declared under its own condition.",
          "Timing tolerance tau = 50 ms on the late side only (tokio timer granularity); never-earlier is exact.", "DESIGN.md §5 C17"),
  "C18": ("fault_enumeration", "sim", "runtime monitor of PDU kinds per direction, termination points and closure outcome in unacknowledged mode under every single and double loss",
          "Closure on/off x every single and double loss over the exchange x sizes incl. 0 x zero-run/neutral content: no ACK/NAK/KeepAlive from the receiver; without closure both end on EOF; with closure the receiver's Finished carries the true outcome, the sender waits for it, reports it and ends; incomplete data or missing metadata is never reported Complete.",
